@@ -3,7 +3,7 @@
     internal/data_model/bucket.go               ItemValue.Merge, addOnlyValue, AddValueCounterHost, SimpleItemValue/Counter
     internal/data_model/max_host_probability.go ItemCounter.Merge, AddCounterHost, CounterHostDistribution
     internal/data_model/ch_arg_minmax_*.go      ArgMin/ArgMax…Float32.Merge
-    internal/data_model/bucket.go               MultiValue.ApplyUnique (event-level entry for unique values)
+    internal/data_model/bucket.go               MultiValue.ApplyUnique, ApplyValues, ApplyValuesLegacy (event-level entries)
     internal/api/tscache.go                     tsValues.merge (numeric fields, hosts, unique; percentile not modelled)
 
   Numbers: float64 in Go. The model is exact arithmetic over `Int` in the domain where float64 is exact
@@ -108,6 +108,18 @@ def uniqueItem (hashes : List Int) (c : Int) (h : Host) : Value :=
   let n : Int := hashes.length
   let tmp := hashes.foldl (fun t v => addOnlyValue t v 4 h) (simpleCounter c h)
   if c ≠ 4 * n then { tmp with sum := tmp.sum * c / (4 * n), sumsq := tmp.sumsq * c / (4 * n) } else tmp
+
+/-- the temporary item ApplyValues / ApplyValuesLegacy build: `values` with count 1 each, `hist` = (value, count) pairs,
+    rescaled like ApplyUnique when the event's count differs from totalCount (`c`, `total`, histogram counts in quarter units) -/
+def valuesItem (values : List Int) (hist : List (Int × Int)) (c total : Int) (h : Host) : Value :=
+  let t1 := values.foldl (fun t v => addOnlyValue t v 4 h) (simpleCounter c h)
+  let t2 := hist.foldl (fun t kv => addOnlyValue t kv.1 kv.2 h) t1
+  if c ≠ total then { t2 with sum := t2.sum * c / total, sumsq := t2.sumsq * c / total } else t2
+
+/-- MultiValue.ApplyValues and ApplyValuesLegacy (hasPercentiles = false: the t-digest is not modelled): the temporary item
+    is MERGED into the accumulator, whatever the accumulator holds (a counter-only item has ValueSet = false but is not empty) -/
+def applyValues (d : Nat) (s : Multi) (values : List Int) (hist : List (Int × Int)) (c total : Int) (h : Host) : Multi :=
+  if total ≤ 0 then s else { s with v := merge d s.v (valuesItem values hist c total h) }
 
 /-- `uint64(hash)` for an int64 -/
 def hashKey (v : Int) : UInt64 := UInt64.ofNat (v % 18446744073709551616).toNat
